@@ -698,9 +698,18 @@ class DataOps:
         if not o['flag'] and (any(isinstance(norm(x), float) for v in src.obj.obs_descriptors.values() for x in v)
                               or any(isinstance(norm(v), float) for v in src.obj.descriptors.values())):
             return False     # from_df(channels=None) takes every float column for a channel: float labels not admissible
+        chans = None
+        if o['flag']:
+            # the channel columns named explicitly: in frame order, in another order, or only some of them
+            chans = list(names)
+            var = o['a'][2] % 4
+            if var in (1, 2) and len(chans) > 1:
+                random.Random(o['a'][3]).shuffle(chans)
+            if var in (2, 3) and len(chans) > 1:
+                chans = chans[:max(1, len(chans) - 1 - o['a'][4] % 2)]
         try:
             df = src.obj.to_df(channel_descriptor='name')
-            res = Dataset.from_df(df, channels=names if o['flag'] else None, channel_descriptor='name')
+            res = Dataset.from_df(df, channels=chans, channel_descriptor='name')
         except Exception as e:
             return self._raise('df_roundtrip', e)
         # channel identity travels through the unique channel names only
@@ -713,6 +722,9 @@ class DataOps:
             return
         sem = deepcopy(src.sem)
         sem['dropped'] = [('channel', 'roi')]
+        if chans is not None and len(chans) < len(names):
+            keep = {name2uid[n] for n in chans}
+            sem['cols'] = [c for c in sem['cols'] if c[0] in keep]
         self._finish('df_roundtrip', [(res, sem)], [src.sid], order=('multiset', 'multiset', 'seq'), sig=(src.op, o['flag']))
 
     def op_average_by(self, o):
